@@ -96,6 +96,8 @@ def gc (kv : List (String × String)) (k : String) : Option (List Name) := (get 
 def goc (kv : List (String × String)) (k : String) : Option (Option (List Name)) := (get kv k).map pOptCols
 
 def handleRule (rule : String) (kv : List (String × String)) : String :=
+  -- a parent that is neither a Projection nor an Index: no rule fires
+  if get kv "parent" = some "O" then rRw false (onProjection (fun _ => none) ParentClass.other) else
   match common kv with
   | none => "BAD parent/deps"
   | some ⟨p, deps⟩ =>
